@@ -99,6 +99,8 @@ def script_from_segment(seg):
             for f in ("sp", "start", "hm", "fm", "moves", "go"):
                 if f in e:
                     c[f] = e[f]
+            if e.get("unterminated"):
+                c["nonl"] = True
             out.append(c)
         elif e["ev"] == "end":
             out.append({"k": "C", "n": len(out) + 1, "kind": e["how"], "text": "quit" if e["how"] == "quit" else ""})
@@ -132,6 +134,11 @@ def run_process_level(prop, tier, seed, R, scripts_override=None):
             with open(tp, "w") as f:
                 for s in scripts:
                     runs = [s]
+                    if prop == "C16":
+                        # end of input in the middle of a line: the last command arrives without a line terminator
+                        b16 = [c for c in s if c["kind"] not in ("quit", "eof")]
+                        if s and s[-1]["kind"] != "quit" and b16 and b16[-1]["kind"] in ("uci", "isready", "go", "position", "ucinewgame"):
+                            runs.append(b16[:-1] + [dict(b16[-1], nonl=True)])
                     if prop == "C03":
                         # the same game continued across a ucinewgame: the move answered must be legal in the position last set
                         b3 = [c for c in s if c["kind"] not in ("quit", "eof")]
